@@ -1,2 +1,3 @@
 import Pxv.Model.Body
 import Pxv.Thm.C14
+import Pxv.Model.ReqData
